@@ -412,13 +412,14 @@ impl fatfs::Seek for MemDev {
     fn seek(&mut self, pos: fatfs::SeekFrom) -> Result<u64, DevErr> {
         let mut d = self.0.borrow_mut();
         let cur = d.pos;
-        d.enter(Kind::Seek, cur, 0)?;
         let len = d.store.len() as i128;
         let np: i128 = match pos {
             fatfs::SeekFrom::Start(x) => x as i128,
             fatfs::SeekFrom::Current(x) => cur as i128 + x as i128,
             fatfs::SeekFrom::End(x) => len + x as i128,
         };
+        // a seek is logged with the position it starts from (`off`) and the position it asks for (`len`)
+        d.enter(Kind::Seek, cur, np.clamp(0, u64::MAX as i128) as u64)?;
         if np < 0 {
             // like std::io::Cursor: seeking before 0 is an error; the library never does it on valid input
             d.past_end = true;
